@@ -19,6 +19,7 @@ struct Proto  // recipe for a pool object (so that fresh, independent instances 
 {
     std::string cls;  // description class for the signature
     bool hasPayload = true;
+    int retypeTo = -1;  // >= 0: after the payload (with its bytes) is stored, its type is changed in place to this 32-bit value
     uint8_t mt = 1, pt = 0x20;
     Bytes bytes;
     uint8_t version = 1, stream = 0, flags = 0, seg = 0;
@@ -31,6 +32,8 @@ struct Proto  // recipe for a pool object (so that fresh, independent instances 
         Packet p;
         if (hasPayload)
             p.setPayload(Payload(PayloadType(static_cast<ASAM::CMP::CmpHeader::MessageType>(mt), pt), bytes.data(), bytes.size()));
+        if (hasPayload && retypeTo >= 0)
+            p.getPayload().setType(PayloadType(static_cast<uint32_t>(retypeTo)));
         p.setVersion(version);
         p.setDeviceId(device);
         p.setStreamId(stream);
@@ -44,7 +47,7 @@ struct Proto  // recipe for a pool object (so that fresh, independent instances 
     }
     bool sameAs(const Proto& o) const
     {
-        return hasPayload == o.hasPayload && (!hasPayload || (mt == o.mt && pt == o.pt && bytes == o.bytes)) && version == o.version && stream == o.stream && flags == o.flags && seg == o.seg &&
+        return hasPayload == o.hasPayload && retypeTo == o.retypeTo && (!hasPayload || (mt == o.mt && pt == o.pt && bytes == o.bytes)) && version == o.version && stream == o.stream && flags == o.flags && seg == o.seg &&
                device == o.device && seq == o.seq && vendor == o.vendor && ts == o.ts && ifid == o.ifid;
     }
 };
@@ -88,6 +91,14 @@ inline std::vector<Proto> makePool(Rng& r, bool randomPool)
         p.vendor = static_cast<uint16_t>(r.next());
         p.flags = r.byte();
         p.seg = static_cast<uint8_t>(r.below(4) << 2);
+        pool.push_back(p);
+    }
+    // payloads whose type was changed in place after the bytes were stored: to 'invalid' (0), to a half-zero type, to another kind
+    for (int t : {0x0000, 0x0100, 0x0001, 0x0108, 0xFF77})
+    {
+        Proto p = pool[4 + 4];
+        p.cls = "retyped-in-place";
+        p.retypeTo = t;
         pool.push_back(p);
     }
     // equal-looking twins and pairs differing in exactly one field
@@ -369,6 +380,23 @@ struct Run
             massign.setRawPayloadType(static_cast<uint8_t>(massign.getRawPayloadType() + 1));
             if (snapPayload(a) != sa)
                 c.violation("C14:mutating-copy-changes-original", "payload original changed with its copy", in);
+            c.count("payload_value_checks");
+        }
+        // payloads re-typed in place (incl. to 'invalid' = 0) keep their bytes through every copy / move / assignment
+        for (uint32_t t : {0x0000u, 0x0100u, 0x0001u, 0x0302u})
+        {
+            Bytes b = r.bytes(r.range(1, 40));
+            b[0] |= 1;
+            Payload a(PayloadType(PayloadType::ethernet), b.data(), b.size());
+            a.setType(PayloadType(t));
+            PayloadSnap sa = snapPayload(a);
+            Payload cpy(a);
+            Payload asg(PayloadType(PayloadType::lin), nullptr, 0);
+            asg = a;
+            Payload mv(std::move(cpy));
+            ++c.evaluations;
+            if (snapPayload(asg) != sa || snapPayload(mv) != sa || snapPayload(a) != sa || sa.bytes != b)
+                c.violation("C14:payload-copy-or-move-differs-from-source", "payload re-typed in place to 0x" + std::to_string(t) + " loses content when copied", "payload bytes " + hex(b, 40));
             c.count("payload_value_checks");
         }
         // zero-length payloads
